@@ -37,6 +37,7 @@ int muggle_path_abspath(const char *path, char *ret, unsigned int size)
 		}
 
 		strncpy(ret, path, size - 1);
+		ret[size - 1] = '\0';
 		return MUGGLE_OK;
 	}
 
@@ -95,6 +96,7 @@ int muggle_path_basename(const char *path, char *ret, unsigned int size)
 		}
 
 		strncpy(ret, path, size-1);
+		ret[size - 1] = '\0';
 		return MUGGLE_OK;
 	}
 
@@ -106,7 +108,7 @@ int muggle_path_basename(const char *path, char *ret, unsigned int size)
 
 	if ((unsigned int)len >= size)
 	{
-		len = size - 1;
+		return MUGGLE_ERR_INVALID_PARAM;
 	}
 	memcpy(ret, path + pos + 1, len);
 	ret[len] = '\0';
@@ -215,11 +217,11 @@ int muggle_path_exists(const char *path)
 
 int muggle_path_join(const char *path1, const char *path2, char *ret, unsigned int size)
 {
-	unsigned int max_len = size - 1;
-	if (max_len <= 0)
+	if (size <= 1)
 	{
 		return MUGGLE_ERR_INVALID_PARAM;
 	}
+	unsigned int max_len = size - 1;
 
 	int len_path1 = (int)strlen(path1);
 	int len_path2 = (int)strlen(path2);
@@ -234,6 +236,7 @@ int muggle_path_join(const char *path1, const char *path2, char *ret, unsigned i
 	}
 
 	strncpy(ret, path1, max_len);
+	ret[max_len] = '\0';
 
 	if (*path2 == '\0')
 	{
@@ -311,7 +314,10 @@ int muggle_path_normpath(const char *path, char *ret, unsigned int size)
 			{
 				ret[pos++] = '.';
 				ret[pos++] = '.';
-				ret[pos++] = *cursor;
+				if (*cursor != '\0')
+				{
+					ret[pos++] = *cursor;
+				}
 			}
 			else
 			{
@@ -320,7 +326,10 @@ int muggle_path_normpath(const char *path, char *ret, unsigned int size)
 				{
 					ret[pos++] = '.';
 					ret[pos++] = '.';
-					ret[pos++] = *cursor;
+					if (*cursor != '\0')
+					{
+						ret[pos++] = *cursor;
+					}
 				}
 				else
 				{
